@@ -447,6 +447,11 @@ fn plain_field(name: &str) -> MSelection {
 /// Inject one fault. Returns None when the chosen fault is not applicable to this document.
 pub fn inject(ch: &mut Choices, doc: &mut MOpDoc, s: &Schema) -> Option<Fault> {
     let which = ch.below(23);
+    inject_which(ch, doc, s, which)
+}
+
+/// one particular fault operator (6: unknown argument, 7: missing required argument, 8: literal of the wrong type, ...)
+pub fn inject_which(ch: &mut Choices, doc: &mut MOpDoc, s: &Schema, which: usize) -> Option<Fault> {
     let any_site = |_: &Vec<MSelection>, _: &Site| true;
     match which {
         0 => {
@@ -470,9 +475,22 @@ pub fn inject(ch: &mut Choices, doc: &mut MOpDoc, s: &Schema) -> Option<Fault> {
                     strip_vars_in_place(&mut o.sel);
                 }
             }
+            // operation names are unique across operation kinds: half of the copies become an operation of
+            // another kind (when the schema has such a root type)
+            let mut class = "document";
+            if let MExecDef::Op(o) = &mut copy {
+                if o.op != OpType::Subscription && ch.flip() {
+                    let other: Vec<OpType> = [OpType::Query, OpType::Mutation].into_iter().filter(|k| *k != o.op && s.root(*k).is_some()).collect();
+                    if let Some(k) = other.first() {
+                        o.op = *k;
+                        o.sel = vec![plain_field("__typename")];
+                        class = "document-other-kind";
+                    }
+                }
+            }
             let at = ch.below(doc.len() + 1);
             doc.insert(at, copy);
-            Some(Fault { label: "dup-operation-name", class: "document".into(), detail: "copy of a named operation" })
+            Some(Fault { label: "dup-operation-name", class: class.into(), detail: "copy of a named operation" })
         }
         1 => {
             let n_ops = doc.iter().filter(|d| matches!(d, MExecDef::Op(_))).count();
@@ -1153,7 +1171,19 @@ fn case_fn(case: &mut Case) -> CaseResult {
         let d = ss.all_diags();
         return Err(Failure::new(format!("schema-rejected:{}", d[0].kind), format!("valid schema rejected: {:?}", d[0]), detail));
     }
-    let os = op_stage(ss.doc.as_ref().unwrap(), 1, &ofiles, &detail)?;
+    // a fifth of the cases check against the schema as an introspection result gives it (what `check` uses when
+    // the schema file is a .json): the same rules must fire
+    let js;
+    let ischema;
+    let mut svalue = None;
+    if case.ch.chance(1, 5) {
+        case.label("schema-via-introspection-json");
+        let io = crate::introspect::IntrospectOpts { meta_types: case.ch.flip(), absent_optionals: case.ch.flip(), shuffle: case.ch.flip() };
+        js = crate::introspect::introspect(&gs.schema, &io, Some(&mut case.ch));
+        ischema = schema_via_introspection(&js, &detail)?;
+        svalue = Some(&ischema);
+    }
+    let os = op_stage_with(ss.doc.as_ref().unwrap(), svalue, 1, &ofiles, &detail)?;
     let diags = os.all_diags();
     let f0 = &faults[0];
     if diags.is_empty() {
@@ -1194,6 +1224,9 @@ fn case_fn(case: &mut Case) -> CaseResult {
 /// with at least one diagnostic. Covers cli/src/check.rs (which decides what is reported per file) and
 /// faults that only show in the importing operation's context (variables used by imported fragments).
 fn cli_case(case: &mut Case, base: &std::path::Path) -> CaseResult {
+    // how the command is started (working directory, --config-file spelling): drawn first so that it varies
+    let cli_style = case.ch.below(crate::cli::CLI_STYLES);
+    case.label(&format!("cli-style-{cli_style}"));
     use crate::cli::{run_cli, Project};
     let so = schema_opts_from_flags(case);
     let gs = gen_schema(&mut case.ch, &so);
@@ -1241,7 +1274,7 @@ fn cli_case(case: &mut Case, base: &std::path::Path) -> CaseResult {
         proj.write(&format!("ops/{rel}"), &t);
         files.push(json!({"path": format!("ops/{rel}"), "text": t}));
     }
-    let run = run_cli(&dir, &["check", "--output-format", "json"]);
+    let run = crate::cli::run_cli_styled(&dir, &["check", "--output-format", "json"], cli_style);
     let detail = json!({"schema": schema_text, "operation_files": files, "fault": {"rule": fault.label, "position": fault.class, "what": fault.detail},
         "status": run.status, "stdout": run.stdout.chars().take(1500).collect::<String>(), "stderr": run.stderr.chars().take(600).collect::<String>()});
     proj.remove();
